@@ -3,6 +3,7 @@ liveness predicate, and the 'entry found => liveness applied' analysis supportin
 (Option::filter(..).map(..)) and the explicit-branch idiom."""
 from core import (strip_site, root_calls, subexprs, enum_paths, path_atoms, path_return, ret_variant, mentions,
                   is_call_to, fmt, dashmap_call)
+from sym import ipaths
 
 
 class LiveModel:
@@ -21,16 +22,87 @@ class LiveModel:
                 self.ID = [f["name"] for f in fs if f["ty"] == "u64"][0]
                 self.soft_vis = [f["vis"] for f in fs if f["name"] == soft[0]][0]
         self.alive_fns = set()
+        self.alive_param = {}        # liveness predicate -> index of its entry parameter
         self.expired_fns = set()     # helpers: "this entry's expiry has passed" (no soft-delete involved)
+        self._paths = {}
         if self.sv:
             short = self.sv.split("::")[-1]
-            cands = [f for name, f in F.fns.items() if f.rec.get("ret") == "bool" and f.kind != "Closure" and f.argc >= 1 and short in f.locals[1]["ty"]]
+            cands = [f for name, f in F.fns.items() if f.rec.get("ret") == "bool" and f.kind != "Closure" and f.argc >= 1
+                     and any(short + "<" in f.locals[i]["ty"] or f.locals[i]["ty"].endswith(short) for i in range(1, f.argc + 1))]
             for f in cands:
                 if f.calls_to("Clock::has_passed") and not reads_field(f, self.SOFT):
                     self.expired_fns.add(f.name)
+            # a liveness predicate = a bool function over an entry whose outcome depends (directly or through the
+            # helpers it calls) on that entry's soft-delete flag AND on the clock having passed something
             for f in cands:
-                if reads_field(f, self.SOFT) and (f.calls_to("Clock::has_passed") or any(t.get("rpath") in self.expired_fns for b, t in f.calls())):
-                    self.alive_fns.add(f.name)
+                for pi in range(1, f.argc + 1):
+                    if short not in f.locals[pi]["ty"]:
+                        continue
+                    ps = self.paths_of(f)
+                    soft = ("field", ("param", pi), self.SOFT)
+                    uses_soft = any(mentions(a[1], lambda s_: s_ == soft) for p in ps for a in p.atoms) or any(mentions(p.ret, lambda s_: s_ == soft) for p in ps)
+                    uses_clock = any(mentions(a[1], lambda s_: is_call_to(s_, "Clock::has_passed")) for p in ps for a in p.atoms) or \
+                        any(mentions(p.ret, lambda s_: is_call_to(s_, "Clock::has_passed")) for p in ps)
+                    if uses_soft and uses_clock:
+                        self.alive_fns.add(f.name)
+                        self.alive_param[f.name] = pi
+
+    def paths_of(self, f):
+        if f.name not in self._paths:
+            self._paths[f.name] = ipaths(self.F, f, stop=lambda n: False, depth=4)
+        return self._paths[f.name]
+
+    def alive_table(self, f):
+        """rows (soft, expiry, passed, result) of a liveness predicate, one per symbolic path with helpers and
+        combinators inlined, a symbolic bool result split in its two outcomes; and the rows that contradict
+        `alive <=> not soft-deleted and (no expiry or not has_passed(that expiry))`"""
+        pi = self.alive_param[f.name]
+        soft_e = ("field", ("param", pi), self.SOFT)
+        exp_e = ("field", ("param", pi), self.EXP)
+        payload = ("field", ("variant", exp_e, "Some"), "0")
+        rows, bad = [], []
+        for p in self.paths_of(f):
+            outcomes = []
+            r = p.ret
+            neg = False
+            while r[0] == "unop" and r[1] == "Not":
+                r, neg = r[2], not neg
+            if r[0] == "const":
+                outcomes.append((list(p.atoms), bool(r[1]) != neg))
+            else:
+                outcomes.append((list(p.atoms) + [("bool", r, True, None)], not neg))
+                outcomes.append((list(p.atoms) + [("bool", r, False, None)], neg))
+            for atoms, result in outcomes:
+                soft = exp = passed = None
+                clock_ok = True
+                contradictory = False
+                for a in atoms:
+                    if a[0] == "bool" and strip_site(a[1]) == soft_e:
+                        contradictory |= soft is not None and soft != a[2]
+                        soft = a[2]
+                    if a[0] == "enum" and strip_site(a[1]) == exp_e:
+                        exp = a[2]
+                    if a[0] == "bool" and is_call_to(a[1], "Clock::has_passed"):
+                        of_entry = len(a[1][2]) == 2 and strip_site(a[1][2][1]) == payload
+                        if not of_entry:
+                            clock_ok = False
+                        contradictory |= passed is not None and passed != a[2]
+                        passed = a[2]
+                    if a[0] == "bool" and a[1][0] == "call" and a[1][1] in self.expired_fns and a[1][2] and strip_site(a[1][2][0]) == ("param", pi):
+                        passed = a[2]
+                        exp = exp or ("Some",)
+                if contradictory:
+                    continue
+                rows.append((soft, exp, passed, result))
+                if not clock_ok:
+                    bad.append("has_passed is asked about something else than the entry's own expiry")
+                should = (soft is False) and (exp == ("None",) or passed is False)
+                decided = soft is True or (soft is False and (exp == ("None",) or passed is not None))
+                if not decided:
+                    bad.append("outcome %s reached without deciding soft-delete and expiry (soft=%s expiry=%s passed=%s)" % (result, soft, exp, passed))
+                elif result != should:
+                    bad.append("soft=%s expiry=%s passed=%s reported %s" % (soft, exp, passed, "alive" if result else "not alive"))
+        return rows, bad
 
     # ---- closure predicates ---------------------------------------------------------------------
     def closure_applies_alive(self, cdef):
@@ -74,39 +146,32 @@ class LiveModel:
         return False, filtered
 
     def lookup_applies_liveness(self, f, bb, t):
-        """does function f apply the liveness predicate to the entry found by the lookup at bb before its
-        outcome depends on it?  returns (ok, form)"""
-        lookup = f.origin_call(bb, t)
-        r = f.origin_local(0)
-        # form A: the returned value / the value whose presence is tested is a filter chain
-        cands = [r] + [s for s in subexprs(r) if s[0] == "call" and s[1].startswith("std::option::Option::<T>::")]
-        for b2, t2 in f.calls():
-            cands.append(f.origin_call(b2, t2))
-        for c in cands:
-            reach, filt = self.chain_filtered(c, lookup)
-            if reach and filt:
-                # every use of the raw lookup result must go through the filter
-                raw_uses = [b2 for b2, t2 in f.calls() if any(strip_site(f.op_origin(a)) == strip_site(lookup) for a in t2["args"])
-                            and not ("Option::<T>::filter" in t2["callee"])]
-                if not raw_uses:
-                    return True, "combinator"
-        # form B: explicit branches
-        paths = enum_paths(f)
-        found_paths = 0
+        """does function f apply the liveness predicate to the entry found by the lookup at bb before its outcome
+        depends on it?  On every symbolic path of f (helpers, closures and Option combinators inlined; the liveness
+        predicates opaque) on which the lookup at bb found an entry, the path must have tested a liveness predicate
+        on that very entry.  returns (ok, form)"""
+        stop = lambda n: n in self.alive_fns
+        paths = ipaths(self.F, f, stop=stop, depth=3)
+        found = 0
         for p in paths:
-            if bb not in p:
+            L = [e for e in p.events if e.fn is f and e.bb == bb]
+            if not L:
                 continue
-            atoms = path_atoms(f, p)
-            some = [a for a in atoms if a[0] == "enum" and strip_site(a[1]) == strip_site(lookup) and a[2] == ("Some",)]
-            if not some:
+            res = L[0].res
+            if p.variant_of(res) != ("Some",):
                 continue
-            found_paths += 1
-            alive = [a for a in atoms if a[0] == "bool" and a[1][0] == "call" and a[1][1] in self.alive_fns
-                     and any(strip_site(c) == strip_site(lookup) for c in root_calls(a[1][2][0]))]
-            if not alive:
-                return False, "branch: a path uses the found entry without testing liveness"
-        if found_paths:
-            return True, "branch"
+            found += 1
+            tested = False
+            for a in p.atoms:
+                if a[0] == "bool" and a[1][0] == "call" and a[1][1] in self.alive_fns:
+                    pi = self.alive_param.get(a[1][1], 1)
+                    arg = a[1][2][pi - 1] if len(a[1][2]) >= pi else None
+                    if arg is not None and any(strip_site(c) == strip_site(res) for c in root_calls(arg)):
+                        tested = True
+            if not tested:
+                return False, "the found entry is used without the liveness predicate (%s)" % p.show()
+        if found:
+            return True, "%d symbolic path(s) on which the entry was found, each tests liveness of that entry" % found
         return False, "the found entry is used without the liveness predicate"
 
 
